@@ -37,7 +37,10 @@ REQUIRED = {
 }
 SINGLE = ['Lemma', 'ExternalLemma', 'ILIDefinition', 'Extends']
 NEW_ELEMS = ['<Requires id="zz" version="1"/>', '<Pronunciation>x</Pronunciation>',
-             '<ExternalSynset id="zz-x"/>', '<Extends id="zz" version="1"/>']
+             '<ExternalSynset id="zz-x"/>',
+             # (zz:2 is the lexicon installed before every add: the pre-scan finds the "base" available, so the
+             # document is parsed and add() must raise - zz:1 is not installed, that case falls under the finding)
+             '<Extends id="zz" version="2"/>', '<Extends id="zz" version="1"/>']
 _TAG = re.compile(r'^\s*<(/?)([A-Za-z]+)')
 
 
@@ -112,10 +115,10 @@ def header_variants(version):
         ('latin1', [h[0].replace('UTF-8', 'ISO-8859-1'), h[1]], 'either'),
         ('no-encoding', ['<?xml version="1.0"?>', h[1]], 'either'),
         ('bom', ['﻿' + h[0], h[1]], 'either'),
-        ('leading-blank', ['', h[0], h[1]], 'either'),
+        ('leading-blank', ['', h[0], h[1]], 'reject'),        # the XML declaration is not at the start
         ('xml-1.1', [h[0].replace('version="1.0"', 'version="1.1"'), h[1]], 'either'),
-        ('https-dtd', [h[0], h[1].replace('http://', 'https://')], 'either'),
-        ('public-doctype', [h[0], f'<!DOCTYPE LexicalResource PUBLIC "x" "{dtd}">'], 'either'),
+        ('https-dtd', [h[0], h[1].replace('http://', 'https://')], 'reject'),       # not a supported DOCTYPE
+        ('public-doctype', [h[0], f'<!DOCTYPE LexicalResource PUBLIC "x" "{dtd}">'], 'reject'),
         # bytes that are not UTF-8 on the second line (written through surrogateescape): not a WN-LMF file
         ('non-utf8-line2', [h[0], '<!-- caf\udce9 -->', h[1]], 'reject'),
         ('non-utf8-doctype', [h[0], h[1].replace('LexicalResource', 'Lexical\udce9Resource')], 'reject'),
